@@ -96,7 +96,8 @@ def to_lists(v):
 
 
 def work_ctx(job):
-    k0, m = job
+    k0, m = job[:2]
+    thorough = len(job) > 2 and job[2]
     from pycel.excelutil import AddressRange
     acc = Acc()
     ev = feval.Evaluator()
@@ -115,6 +116,9 @@ def work_ctx(job):
             if i % m != k0:
                 continue
             fillings = [(None, -1)] + [(sp, (i + n) * 3) for n, sp in enumerate(SPECIALS)]
+            if thorough:
+                # every special element at every position of the first operand
+                fillings = [(None, -1)] + [(sp, pos_) for sp in SPECIALS + [True] for pos_ in range(s1[0] * s1[1])]
             for sp, pos in fillings:
                 A = fill(s1, 0, sp, pos) if pos >= 0 else fill(s1, 0)
                 B = fill(s2, 2 if name in ('ROUND', 'LEFT') else 100) if name not in ('ROUND', 'LEFT') else \
@@ -300,7 +304,7 @@ def work_workbook(job):
 
 def run(ctx):
     m = 64
-    ctx.pmap(work_ctx, [((k + ctx.seed) % m, m) for k in range(m)], timeout=6000)
+    ctx.pmap(work_ctx, [((k + ctx.seed) % m, m, ctx.thorough) for k in range(m)], timeout=12000)
     ctx.pmap(work_workbook, [(k, 32) for k in range(32)], timeout=6000)
     ctx.pmap(work_typemix, [(k, 32) for k in range(32)], timeout=6000)
     ctx.counts['traces_validated_against_impl'] = ctx.counts.get('evaluations', 0)
